@@ -112,12 +112,22 @@ class Graph(vf.StateGraph):
                     k = rnd.choice(ks)
                     pe.append((u, k))
                     u = self.out[u][k][1]
+                lazy_end = False
+                if w % 2 == 0:
+                    ks = [k for k, (a, v) in enumerate(self.out[u])
+                          if a.get("op") in ("zero_entry", "swap_rows", "swap_cols") and a.get("op") not in ban_ops
+                          and not banned(u, k, a) and not tree_banned(u, k, a)]
+                    if ks:
+                        k = rnd.choice(ks)
+                        pe.append((u, k))
+                        u = self.out[u][k][1]
+                        lazy_end = True
                 ks = [k for k in range(len(self.out[u]))
                       if self.out[u][k][0].get("op") not in ban_ops and not banned(u, k, self.out[u][k][0])]
                 if not pe or not ks:
                     continue
-                if len(ks) > walk_edges:
-                    ks = sorted(rnd.sample(ks, walk_edges))
+                if len(ks) > walk_edges * (6 if lazy_end else 1):
+                    ks = sorted(rnd.sample(ks, walk_edges * (6 if lazy_end else 1)))
                 wid = -(len(self.walks) + 1)
                 self.walks.append((pe, u))
                 for s_, e in enumerate(pe):
@@ -236,19 +246,25 @@ def record_and_validate(ev, fnd, tier, matchers, prop="C09", bins=None):
         os.remove(f)
     avoid = ",".join(e["id"] for e in fnd.known(prop))
     quick = tier == "quick"
-    executions, steps = (2, 150) if quick else (1, 2000)
+    # every instantiation: Z_2 configurations over Z_2, Z_p configurations over Z_5; thorough tier in addition
+    # 2000-step histories over Z_7 on a pseudo-random eighth of the Z_p instantiations
+    executions, steps = (2, 150) if quick else (1, 600)
     cmds = []
     for (ct, part), b in sorted(bins.items()):
-        ps = [2] if part == 0 else ([5] if quick else [5, 7])
+        ps = [(2, executions, steps, None)] if part == 0 else [(5, executions, steps, None)]
         if part == 2:
-            ps = [2, 5] if quick else [2, 5, 7]
-        for p in ps:
+            ps = [(2, executions, steps, None), (5, executions, steps, None)]
+        if not quick and part != 0:
+            ps.append((7, 1, 2000, "%d:8" % vf.seed()))
+        for p, ne, ns, pick in ps:
             d = os.path.join(work, "p%d" % p)
             os.makedirs(d, exist_ok=True)
             env = {"VF_P": str(p), "VF_NR": "8", "VF_NC": "8", "VF_AVOID": avoid}
             if part == 2:
                 env["VF_FILTER"] = "/z2/" if p == 2 else "/zp/"
-            cmds.append(([b, d, str(vf.seed()), str(executions), str(steps)], env))
+            if pick:
+                env["VF_PICK"] = pick
+            cmds.append(([b, d, str(vf.seed()), str(ne), str(ns)], env))
     from concurrent.futures import ThreadPoolExecutor
     with ThreadPoolExecutor(PAR) as ex:
         futs = [ex.submit(vf.run, c, 1100, e, None, (0,)) for c, e in cmds]
